@@ -226,6 +226,17 @@ type replayEntry struct {
 	Pkg      string `json:"pkg"`      // package dir relative to the repo
 	File     string `json:"file"`     // test file under /verif/replay
 	Test     string `json:"test"`     // test function for single-input replay
+	// Obligation, if set, restricts the entry to obligations whose name contains it
+	Obligation string `json:"obligation,omitempty"`
+	// Delays force a particular interleaving: a `time.Sleep` is inserted (in an overlay copy, never in /repo) before the
+	// first source line containing Match. A sleep changes scheduling only, not what the code computes.
+	Delays []delayPoint `json:"delays,omitempty"`
+}
+
+type delayPoint struct {
+	File  string `json:"file"`
+	Match string `json:"match"`
+	Ms    int    `json:"ms"`
 }
 type boundedEntry struct {
 	Name  string `json:"name"`
@@ -250,12 +261,31 @@ func loadReplayIndex(verif string) *replayIndex {
 }
 
 // runGoTest injects the test file into the package with an overlay and runs one test.
-func runGoTest(eng *Engine, pkgRel, file, test string, env []string, timeout time.Duration) (string, error) {
+func runGoTest(eng *Engine, pkgRel, file, test string, env []string, timeout time.Duration, delays ...delayPoint) (string, error) {
 	work, _ := os.MkdirTemp("", "govc-replay-")
 	defer os.RemoveAll(work)
 	src := filepath.Join(eng.verif, "replay", file)
 	dst := filepath.Join(eng.repo, pkgRel, "zz_govc_"+filepath.Base(file))
-	ov := map[string]any{"Replace": map[string]string{dst: src}}
+	repl := map[string]string{dst: src}
+	for i, d := range delays {
+		orig := filepath.Join(eng.repo, d.File)
+		data, err := os.ReadFile(orig)
+		if err != nil {
+			continue
+		}
+		lines := strings.Split(string(data), "\n")
+		for j, l := range lines {
+			if strings.Contains(l, d.Match) {
+				indent := l[:len(l)-len(strings.TrimLeft(l, "\t "))]
+				lines = append(lines[:j], append([]string{fmt.Sprintf("%stime.Sleep(%d * time.Millisecond) // schedule-forcing delay (replay only)", indent, d.Ms)}, lines[j:]...)...)
+				break
+			}
+		}
+		mod := filepath.Join(work, fmt.Sprintf("delay%d_%s", i, filepath.Base(d.File)))
+		os.WriteFile(mod, []byte(strings.Join(lines, "\n")), 0o644)
+		repl[orig] = mod
+	}
+	ov := map[string]any{"Replace": repl}
 	data, _ := json.Marshal(ov)
 	ovf := filepath.Join(work, "overlay.json")
 	os.WriteFile(ovf, data, 0o644)
@@ -275,7 +305,7 @@ func replayOnRealCode(eng *Engine, prop, obl string, f *OblResult, inputs map[st
 		fn = obl[:i]
 	}
 	for _, e := range ri.Replays {
-		if e.Function != fn {
+		if e.Function != fn || (e.Obligation != "" && !strings.Contains(obl, e.Obligation)) {
 			continue
 		}
 		work, _ := os.MkdirTemp("", "govc-in-")
@@ -283,7 +313,7 @@ func replayOnRealCode(eng *Engine, prop, obl string, f *OblResult, inputs map[st
 		in := filepath.Join(work, "input.json")
 		data, _ := json.MarshalIndent(inputs, "", " ")
 		os.WriteFile(in, data, 0o644)
-		out, _ := runGoTest(eng, e.Pkg, e.File, e.Test, []string{"GOVC_REPLAY_INPUT=" + in, "GOVC_OBLIGATION=" + obl}, 60*time.Second)
+		out, _ := runGoTest(eng, e.Pkg, e.File, e.Test, []string{"GOVC_REPLAY_INPUT=" + in, "GOVC_OBLIGATION=" + obl}, 60*time.Second, e.Delays...)
 		var keep []string
 		for _, l := range strings.Split(out, "\n") {
 			if strings.Contains(l, "REPLAY-") || strings.Contains(l, "panic") || strings.HasPrefix(l, "--- ") {
